@@ -685,7 +685,22 @@ package reflect
 //@   ensures c12_idx: err == nil ==> forall k int :: {sd.fieldIdx[k]} 0 <= k && k < len(sd.fieldIdx) ==> -1 <= sd.fieldIdx[k] && sd.fieldIdx[k] < len(sd.fields) && (sd.fieldIdx[k] >= 0 ==> sd.fields[sd.fieldIdx[k]].ID == k)
 //@   ensures c09_required: err == nil ==> forall j int :: {sd.requiredFieldIDs[j]} 0 <= j && j < len(sd.requiredFieldIDs) ==> sd.requiredFieldIDs[j] <= sd.maxID && sd.fieldIdx[sd.requiredFieldIDs[j]] >= 0
 
+// Prefetch completeness (C07/C13: the codec never meets a struct node without its descriptor).
+// trank: descriptor trees are finite along K/V (part of what wfTshape assumes, A-WF); tdone(h, t): every
+// struct node reachable from t along K/V edges has its Sd set in the Sd-heap h; sdmono: Sd fields only
+// ever go from nil to non-nil during a build. tdone is monotone in the heap (by induction on the rank).
+//@ spec uf func trank(t *tType) Int
+//@ axiom wfTshape_rank: forall t *tType :: {wfTshape(t)} wfTshape(t) ==> trank(t) >= 0 && ((t.T == tMAP || t.T == tLIST || t.T == tSET) ==> trank(t.V) < trank(t)) && (t.T == tMAP ==> trank(t.K) < trank(t))
+//@ spec rec func tdone(h Mem, t *tType) bool = (t.T == tSTRUCT ==> h[t] != 0) && (t.T == tMAP ==> tdone(h, t.K) && tdone(h, t.V)) && ((t.T == tLIST || t.T == tSET) ==> tdone(h, t.V))
+//@ spec func sdmono(h1 Mem, h2 Mem) bool = forall a Int :: {h2[a]} h1[a] != 0 ==> h2[a] != 0
+//@ spec uf func rkle(t *tType, k Int) bool
+//@ axiom rkle_def: forall t *tType, k Int :: {rkle(t, k)} rkle(t, k) <==> trank(t) <= k
+//@ axiom rkle_self: forall t *tType :: {trank(t)} rkle(t, trank(t))
+//@ lemma tdone_mono: forall h1 Mem, h2 Mem, t *tType, k Int :: {tdone(h1, t), tdone(h2, t), rkle(t, k)} wfTshape(t) && rkle(t, k) && tdone(h1, t) && sdmono(h1, h2) ==> tdone(h2, t)
+//@   opt induction k
+
 //@ func newStructDescAndPrefetch(t reflect.Type) (sd *structDesc, err error)
+//@   ensures c07_sdmono: sdmono(old(heap("tType.Sd")), heap("tType.Sd"))
 //@   requires c13_track: $(sdtrack)
 //@   ensures c13_track: $(sdtrack)
 //@   requires c07_inv: $(pfinv)
@@ -703,6 +718,10 @@ package reflect
 //@   ensures old($brk) <= $brk
 
 //@ func prefetchSubStructDesc(d *structDesc) (err error)
+//@   ensures c07_done: err == nil ==> forall i int :: {d.fields[i]} 0 <= i && i < len(d.fields) ==> tdone(heap("tType.Sd"), d.fields[i].Type)
+//@   loop 0 invariant c07_done: forall i int :: {d.fields[i]} 0 <= i && i <= rangeindex ==> tdone(heap("tType.Sd"), d.fields[i].Type)
+//@   loop 0 invariant c07_sdmono: sdmono(old(heap("tType.Sd")), heap("tType.Sd"))
+//@   ensures c07_sdmono: sdmono(old(heap("tType.Sd")), heap("tType.Sd"))
 //@   requires c13_track: $(sdtrack)
 //@   ensures c13_track: $(sdtrack)
 //@   requires d != nil
@@ -723,6 +742,8 @@ package reflect
 //@   loop 0 invariant c07_inprog: forall k reflect.Type :: {$inprog[k]} $inprog[k] == old($inprog[k])
 
 //@ func fetchStructDesc(t *tType) (err error)
+//@   ensures c07_done: err == nil ==> tdone(heap("tType.Sd"), t)
+//@   ensures c07_sdmono: sdmono(old(heap("tType.Sd")), heap("tType.Sd"))
 //@   after newStructDescAndPrefetch ghost $pfi = (res_err == nil ? store($pfi, t, len(prefetchedTypes)) : $pfi)
 //@   requires c13_track: $(sdtrack)
 //@   ensures c13_track: $(sdtrack)
